@@ -78,7 +78,10 @@ def _case(draw):
                     side[ext] = draw(_sidecar())
         items.append({"name": name, "kind": kind, "size": draw(st.sampled_from([0, 1, 500, 1023, 1024, 1025, 5000])), "side": side,
                       # a UMN override of the same item (display name / number): the sidecar blocks must survive the merge
-                      "override": draw(st.sampled_from([None, None, "names", "cap", "names-numb"]))})
+                      "override": draw(st.sampled_from([None, None, "names", "cap", "names-numb"])),
+                      # one sidecar that is there, looks like a regular file, and cannot be read (I/O error): the item does
+                      # without that block - and keeps its others
+                      "unreadable": draw(st.sampled_from(sorted(side))) if len(side) >= 2 and draw(st.integers(0, 2)) == 0 else None})
     if not items:
         items.append({"name": "a.txt", "kind": "txt", "size": 10, "side": {".abstract": {"lines": ["x"], "final_nl": True}}})
     return {"items": items, "inzip": draw(st.sampled_from([False, False, True])), "depth": draw(st.sampled_from([0, 1])),
@@ -106,7 +109,7 @@ def _entries(case):
             spec.append([n, "d", None])
             spec.append([n + "/inner.txt", "f", "x\n"])
             for ext, sc in it["side"].items():
-                spec.append([n + "/" + ext, "f", _sc_text(sc)])
+                spec.append([n + "/" + ext, "f", _sc_text(sc)] if it.get("unreadable") != ext else [n + "/" + ext, "l", "/proc/self/mem"])
         else:
             if it["kind"] == "mbox" or it.get("_mbox_as_file"):
                 # messages whose flattened forms differ: a header line longer than 78 columns, an 8-bit body with a
@@ -123,7 +126,7 @@ def _entries(case):
             spec.append([n, "f", content])
             it["_len"] = len(content)
             for ext, sc in it["side"].items():
-                spec.append([n + ext, "f", _sc_text(sc)])
+                spec.append([n + ext, "f", _sc_text(sc)] if it.get("unreadable") != ext else [n + ext, "l", "/proc/self/mem"])
     blocks = []
     for i, it in enumerate(case["items"]):
         ov = it.get("override")
@@ -143,7 +146,7 @@ def _blocks(body):
 def _check_item_blocks(it, item, cfg, inzip, where, admin):
     """item: parsed {'entry','infoline','blocks'}; returns list of Fail"""
     fails = []
-    names = [b[0] for b in item["blocks"]]
+    names = [b[0] for b in item["blocks"] if it is None or b[0] != it.get("_unread_blk")]
     want = [b"INFO", b"ADMIN", b"VIEWS"] + [blk for ext, blk in EA if it is not None and ext in it["side"]]
     if it is not None and it["kind"] == "mbox":
         pass
@@ -197,7 +200,7 @@ def _check_item_blocks(it, item, cfg, inzip, where, admin):
                     fails.append(Fail("views-nosize", "%s: +VIEWS gives no size for a file" % where))
                 elif abs(int(m.group(2)) * 1024 - it["_len"]) >= 1024:
                     fails.append(Fail("views-size", "%s: +VIEWS <%sk> for %d bytes" % (where, m.group(2).decode(), it["_len"])))
-        elif name in (b"ABSTRACT", b"KEYWORDS", b"ASK", b"3D") and it is not None:
+        elif name in (b"ABSTRACT", b"KEYWORDS", b"ASK", b"3D") and it is not None and name != it.get("_unread_blk"):
             ext = [e for e, b_ in EA if b_ == name][0]
             wl = [world.b(l) for l in it["side"][ext]["lines"]]
             got = [l[1:] for l in lines]
@@ -272,7 +275,15 @@ def check_case(case, ctx):
                 it["_mbox_as_file"] = True
         names = [it["name"] for it in case["items"]]
         case["items"] = [it for i, it in enumerate(case["items"]) if it["name"] not in names[:i]]
+    for it in case["items"]:
+        if inzip or it.get("unreadable") not in it["side"]:
+            it["unreadable"] = None
     rel = _entries(case)
+    for it in case["items"]:
+        if it["unreadable"]:
+            it["side"].pop(it["unreadable"])
+            it["_unread_blk"] = dict(EA)[it["unreadable"]]
+            ctx.label("unreadable-sidecar")
     pre = "top/" if case["depth"] else ""
     if inzip:
         members = []
